@@ -1066,6 +1066,20 @@ func (d *Ledger) actKV() {
 		}
 		args = append(args, k, vals[d.R.Intn(len(vals))])
 	}
+	if d.chance(25) {
+		// a forged protocol entry (a role list, a balance) under a protected key, first or - more often - in a later pair
+		var fk, fv []byte
+		if d.chance(50) {
+			fk, fv = append([]byte("ELRONDroleesdt"), d.pickTok(append(append([][]byte{}, d.Fung...), d.NFT...))...), forgedRoles
+		} else {
+			fk, fv = append([]byte("ELRONDesdt"), d.pickTok(d.Fung)...), forged
+		}
+		if d.chance(25) {
+			args = append([][]byte{fk, fv}, args...)
+		} else {
+			args = append(args, fk, fv)
+		}
+	}
 	if d.chance(5) {
 		args = args[:len(args)-1]
 	}
@@ -1303,7 +1317,7 @@ func DefaultWeights(profile string) map[string]int {
 	case "supply":
 		w["mintburn"], w["create"], w["nftrole"], w["esdtburn"], w["freeze"] = 20, 12, 16, 8, 10
 	case "roles":
-		w["rogue"] = 12
+		w["rogue"], w["kv"] = 12, 8
 		w["setrole"], w["unsetrole"], w["mintburn"], w["create"], w["nftrole"], w["handover"], w["acct"] = 10, 8, 14, 10, 16, 6, 10
 	case "freeze":
 		w["freeze"], w["pause"] = 16, 12
